@@ -38,6 +38,10 @@
 (*  "outbox_cleared_before_push" hypothetical: exchange loses the events.     *)
 (*  "exchange_late"         hypothetical: events produced in a window are     *)
 (*                          exchanged one barrier later.                      *)
+(*  "cancelled_run_skips_bound" hypothetical: after popping a cancelled event   *)
+(*                          the loop pops on without re-testing the window    *)
+(*                          bound, so the first live event after a run of     *)
+(*                          cancelled ones is delivered even beyond the end.  *)
 (*  "link_latency_no_sample" AS CODE: for a link that declares a latency      *)
 (*                          distribution the exchange calls                   *)
 (*                          link.latency.sample(), which LatencyDistribution  *)
@@ -49,6 +53,7 @@ CONSTANTS Confs,     \* set of configurations [ep : Seq(partition), np : Nat, li
                      \* (optional field ovl: links that declare a LatencyDistribution)
           MaxLat,    \* link minimum latencies range over 1..MaxLat
           MaxEv, MaxT, MaxOut,
+          Cancels,   \* TRUE: handlers may cancel pending timers (Event.cancel())
           ShortWin,  \* window ends falling short of the nominal tick (float truncation):
                      \* "never" | "fixed" (all windows or none) | "any" (from any window on)
           Interleave,\* TRUE: partitions' loop iterations interleave freely (thread pool)
@@ -57,7 +62,8 @@ CONSTANTS Confs,     \* set of configurations [ep : Seq(partition), np : Nat, li
 Inf == 999999
 
 VARIABLES conf, lat, w,          \* configuration
-          ev,                    \* program: 1..N -> [t, tgt, par]; id = creation order in the reference run
+          ev,                    \* program: 1..N -> [t, tgt, par, cby]; id = creation order in the reference
+                                 \* run; cby = the event whose handler cancels this one (a timer), or 0
           phase,                 \* "build" | "seq" | "par" | "done" | "crashed" (run() raised)
           sheap, slog,           \* sequential reference: heap (ids), per-entity delivery log (ids)
           heap, clock, outbox,   \* per partition
@@ -67,13 +73,16 @@ VARIABLES conf, lat, w,          \* configuration
           plog,                  \* per entity: ids delivered by the partitioned run, in order
           dropped,               \* ids discarded as "time travel" by a partition
           late,                  \* outbox entries held back (only with "exchange_late")
+          pcx,                   \* ids on which Event.cancel() was called in the partitioned run
+          drain,                 \* per partition: inside a run of cancelled pops ("cancelled_run_skips_bound")
           ovr,                   \* ghost, per partition: window end in force when the clock was moved
                                  \* beyond it (overshoot), else -1
           shist                  \* ghost: short flag of every window so far
 vars == <<conf, lat, w, ev, phase, sheap, slog, heap, clock, outbox, pdone, curN, curS, endN, endS,
-          sub, plog, dropped, late, ovr, shist>>
+          sub, plog, dropped, late, pcx, drain, ovr, shist>>
 
 Overshoot == "window_overshoot" \in Dev
+DrainDev == "cancelled_run_skips_bound" \in Dev
 
 N == Len(ev)
 Ents == 1..Len(conf.ep)
@@ -96,25 +105,30 @@ WChoices(c, l) ==
     ELSE LET m == MinOf({ l[k] : k \in c.links })
          IN 1..(IF "no_window_validation" \in Dev THEN m + 1 ELSE m)
 
-Init ==
-    /\ conf \in Confs
-    /\ lat \in [conf.links -> 1..MaxLat]
-    /\ w \in WChoices(conf, lat)
-    /\ ev = <<>> /\ phase = "build"
+InitRest ==
+    /\ phase = "build"
     /\ sheap = {} /\ slog = [e \in Ents |-> <<>>]
     /\ heap = [p \in Parts |-> {}] /\ clock = [p \in Parts |-> 0] /\ outbox = [p \in Parts |-> {}]
     /\ pdone = [p \in Parts |-> FALSE]
     /\ curN = 0 /\ curS = 0 /\ endN = 0 /\ endS = 0 /\ sub = "-"
     /\ plog = [e \in Ents |-> <<>>] /\ dropped = {} /\ late = {}
+    /\ pcx = {} /\ drain = [p \in Parts |-> FALSE]
     /\ ovr = [p \in Parts |-> -1] /\ shist = <<>>
 
-parVars == <<heap, clock, outbox, pdone, curN, curS, endN, endS, sub, plog, dropped, late, ovr, shist>>
+Init ==
+    /\ conf \in Confs
+    /\ lat \in [conf.links -> 1..MaxLat]
+    /\ w \in WChoices(conf, lat)
+    /\ ev = <<>>
+    /\ InitRest
+
+parVars == <<heap, clock, outbox, pdone, curN, curS, endN, endS, sub, plog, dropped, late, pcx, drain, ovr, shist>>
 
 \* ---- building the model: Event(...); sim.schedule(event) ---------------------
 CreatePre(t, g) ==
     /\ phase = "build" /\ N < MaxEv
     /\ N > 0 => LexLE(<<ev[N].t, ev[N].tgt>>, <<t, g>>)        \* canonical order (symmetry)
-    /\ ev' = Append(ev, [t |-> t, tgt |-> g, par |-> 0])
+    /\ ev' = Append(ev, [t |-> t, tgt |-> g, par |-> 0, cby |-> 0])
     /\ UNCHANGED <<conf, lat, w, phase, sheap, slog>> /\ UNCHANGED parVars
 
 StartSeq ==
@@ -133,14 +147,25 @@ OutOK(i, o) ==
           /\ <<PartEv(i), PartOf(o.tgt)>> \in conf.links
           /\ o.dt >= lat[<<PartEv(i), PartOf(o.tgt)>>]
 
-SeqDeliver(outs) ==
+\* Event.cancel() by a handler: the handler of event i may disarm a timer c of its own entity that
+\* is still pending.  To mean the same under every engine the choice must not hinge on the order of
+\* equal timestamps: c is due strictly later than i and was created strictly before i, by the same
+\* entity (or before the run), so it never crosses a partition boundary.
+Cancellable(i) ==
+    { c \in sheap : /\ ev[c].tgt = ev[i].tgt /\ ev[c].t > ev[i].t
+                    /\ (ev[c].par = 0 \/ (ev[ev[c].par].tgt = ev[i].tgt /\ ev[ev[c].par].t < ev[i].t)) }
+
+SeqDeliver(outs, c) ==
     /\ phase = "seq" /\ sheap # {}
     /\ LET i == SMin IN
        /\ N + Len(outs) <= MaxEv
        /\ \A k \in 1..Len(outs) : OutOK(i, outs[k])
        /\ \A k \in 1..(Len(outs) - 1) : LexLE(<<outs[k].dt, outs[k].tgt>>, <<outs[k+1].dt, outs[k+1].tgt>>)
-       /\ ev' = ev \o [k \in 1..Len(outs) |-> [t |-> ev[i].t + outs[k].dt, tgt |-> outs[k].tgt, par |-> i]]
-       /\ sheap' = (sheap \ {i}) \cup { N + k : k \in 1..Len(outs) }
+       /\ c = 0 \/ (Cancels /\ c \in Cancellable(i))
+       /\ ev' = [j \in 1..N |-> IF j = c THEN [ev[j] EXCEPT !.cby = i] ELSE ev[j]]
+                \o [k \in 1..Len(outs) |-> [t |-> ev[i].t + outs[k].dt, tgt |-> outs[k].tgt, par |-> i, cby |-> 0]]
+       \* a cancelled event is never delivered by the reference engine (lazy deletion at pop)
+       /\ sheap' = (sheap \ {i, c}) \cup { N + k : k \in 1..Len(outs) }
        /\ slog' = [slog EXCEPT ![ev[i].tgt] = Append(@, i)]
     /\ UNCHANGED <<conf, lat, w, phase>> /\ UNCHANGED parVars
 
@@ -167,45 +192,58 @@ StartPar ==
             /\ endN' = WinEnd(0, s)[1] /\ endS' = WinEnd(0, s)[2]
             /\ shist' = <<WinEnd(0, s)[2]>>
             /\ sub' = "exec"
-    /\ UNCHANGED <<conf, lat, w, ev, sheap, slog, clock, outbox, pdone, curN, curS, plog, dropped, late, ovr>>
+    /\ UNCHANGED <<conf, lat, w, ev, sheap, slog, clock, outbox, pdone, curN, curS, plog, dropped, late, pcx,
+                   drain, ovr>>
 
 \* ---- Simulation._execute_until(window_end), one loop iteration ------------------
-\* loop condition (besides heap_has_events()):
-\*   as code:  current_time <= window_end          (clock tested BEFORE the pop)
-\*   intended: the next event is not later than window_end
-CanPop(p) == heap[p] # {} /\ (IF Overshoot THEN clock[p] <= E ELSE MinT(heap[p]) <= E)
+\* loop head:  while heap_has_events() and current_time <= window_end:
+\*                 if stop_at_bound and heap.peek().time > window_end: break      (since b47002b)
+\* ("window_overshoot" = the code before that repair: only the clock was tested, before the pop)
+CanPop(p) == heap[p] # {} /\ clock[p] <= E /\ (Overshoot \/ MinT(heap[p]) <= E)
+\* "cancelled_run_skips_bound": inside a run of cancelled pops the head is not evaluated again
+MayPop(p) == CanPop(p) \/ (drain[p] /\ heap[p] # {})
 \* partitions below p have returned (only when interleavings are not explored)
 Turn(p) == Interleave \/ \A q \in Parts : q < p => pdone[q]
 
 ExecGuard(p, i) ==
     /\ phase = "par" /\ sub = "exec" /\ ~pdone[p] /\ Turn(p)
-    /\ CanPop(p)
+    /\ MayPop(p)
     /\ i \in heap[p] /\ ev[i].t = MinT(heap[p])         \* heapq pops a minimal timestamp; ties: any
 
 ExecStep(p, i) ==
     /\ ExecGuard(p, i)
-    /\ IF ev[i].t < clock[p]
+    /\ IF i \in pcx
+       THEN \* lazy deletion of a cancelled event: "if event._cancelled: continue"
+            /\ heap' = [heap EXCEPT ![p] = @ \ {i}]
+            /\ drain' = [drain EXCEPT ![p] = DrainDev]
+            /\ UNCHANGED <<clock, outbox, plog, ovr, dropped, pcx>>
+       ELSE IF ev[i].t < clock[p]
        THEN \* "Time travel detected ... Skipping event"
             /\ heap' = [heap EXCEPT ![p] = @ \ {i}]
             /\ dropped' = dropped \cup {i}
-            /\ UNCHANGED <<clock, outbox, plog, ovr>>
+            /\ drain' = [drain EXCEPT ![p] = FALSE]
+            /\ UNCHANGED <<clock, outbox, plog, ovr, pcx>>
        ELSE LET kids == Children(i)
                 loc == { c \in kids : PartEv(c) = p }
             IN /\ clock' = [clock EXCEPT ![p] = ev[i].t]
                /\ plog' = [plog EXCEPT ![ev[i].tgt] = Append(@, i)]
                /\ heap' = [heap EXCEPT ![p] = (@ \ {i}) \cup loc]          \* router: local
                /\ outbox' = [outbox EXCEPT ![p] = @ \cup (kids \ loc)]     \* router: outbox
+               \* the handler disarms its timers that exist and are still pending
+               /\ pcx' = pcx \cup { c \in heap[p] : ev[c].cby = i }
                /\ ovr' = [ovr EXCEPT ![p] = IF ev[i].t > E THEN E ELSE -1]
+               /\ drain' = [drain EXCEPT ![p] = FALSE]
                /\ UNCHANGED dropped
     /\ UNCHANGED <<conf, lat, w, ev, phase, sheap, slog, pdone, curN, curS, endN, endS, sub, late, shist>>
 
-DoneGuard(p) == phase = "par" /\ sub = "exec" /\ ~pdone[p] /\ Turn(p) /\ ~CanPop(p)
+DoneGuard(p) == phase = "par" /\ sub = "exec" /\ ~pdone[p] /\ Turn(p) /\ ~MayPop(p)
 
 ExecDone(p) ==
     /\ DoneGuard(p)
     /\ pdone' = [pdone EXCEPT ![p] = TRUE]
+    /\ drain' = [drain EXCEPT ![p] = FALSE]
     /\ UNCHANGED <<conf, lat, w, ev, phase, sheap, slog, heap, clock, outbox, curN, curS, endN, endS, sub,
-                   plog, dropped, late, ovr, shist>>
+                   plog, dropped, late, pcx, ovr, shist>>
 
 \* ---- WindowedCoordinator._exchange_events ----------------------------------------
 \* (the min_latency validation cannot fail: OutOK only builds programs that respect it)
@@ -224,7 +262,7 @@ ExchangeCrash ==
     /\ ExchangeGuard /\ Crashes
     /\ phase' = "crashed" /\ sub' = "-"
     /\ UNCHANGED <<conf, lat, w, ev, sheap, slog, heap, clock, outbox, pdone, curN, curS, endN, endS, plog,
-                   dropped, late, ovr, shist>>
+                   dropped, late, pcx, drain, ovr, shist>>
 
 Exchange ==
     /\ ExchangeGuard /\ ~Crashes
@@ -233,7 +271,7 @@ Exchange ==
     /\ late' = IF "exchange_late" \in Dev THEN Outgoing ELSE late
     /\ sub' = "advance"
     /\ UNCHANGED <<conf, lat, w, ev, phase, sheap, slog, clock, pdone, curN, curS, endN, endS, plog, dropped,
-                   ovr, shist>>
+                   pcx, drain, ovr, shist>>
 
 \* ---- current_time = window_end; heaps-exhausted test; loop head --------------------
 AllEmpty == \A p \in Parts : heap[p] = {}
@@ -251,7 +289,7 @@ Advance(s) ==
             /\ shist' = Append(shist, WinEnd(endN, s)[2])
             /\ pdone' = [p \in Parts |-> FALSE]
             /\ UNCHANGED phase /\ sub' = "exec"
-    /\ UNCHANGED <<conf, lat, w, ev, sheap, slog, heap, clock, outbox, plog, dropped, late, ovr>>
+    /\ UNCHANGED <<conf, lat, w, ev, sheap, slog, heap, clock, outbox, plog, dropped, late, pcx, drain, ovr>>
 
 \* ---- ParallelSimulation._run_independent: every partition is a plain Simulation.run() ---
 \* (a plain Simulation.run tests its clock against end_time before the pop and so delivers one event
@@ -264,24 +302,29 @@ IndepGuard(p, i) ==
 
 IndepStep(p, i) ==
     /\ IndepGuard(p, i)
-    /\ clock' = [clock EXCEPT ![p] = ev[i].t]
-    /\ plog' = [plog EXCEPT ![ev[i].tgt] = Append(@, i)]
-    /\ heap' = [heap EXCEPT ![p] = (@ \ {i}) \cup Children(i)]
+    /\ IF i \in pcx
+       THEN /\ heap' = [heap EXCEPT ![p] = @ \ {i}]
+            /\ UNCHANGED <<clock, plog, pcx>>
+       ELSE /\ clock' = [clock EXCEPT ![p] = ev[i].t]
+            /\ plog' = [plog EXCEPT ![ev[i].tgt] = Append(@, i)]
+            /\ heap' = [heap EXCEPT ![p] = (@ \ {i}) \cup Children(i)]
+            /\ pcx' = pcx \cup { c \in heap[p] : ev[c].cby = i }
     /\ UNCHANGED <<conf, lat, w, ev, phase, sheap, slog, outbox, pdone, curN, curS, endN, endS, sub, dropped, late,
-                   ovr, shist>>
+                   drain, ovr, shist>>
 
 IndepFinish ==
     /\ phase = "par" /\ sub = "indep" /\ \A p \in Parts : ~IndepCanPop(p)
     /\ phase' = "done" /\ sub' = "-"
     /\ UNCHANGED <<conf, lat, w, ev, sheap, slog, heap, clock, outbox, pdone, curN, curS, endN, endS, plog,
-                   dropped, late, ovr, shist>>
+                   dropped, late, pcx, drain, ovr, shist>>
 
 Outs(k) == [1..k -> OutRec]
 
 Next ==
     \/ \E t \in 0..MaxT, g \in Ents : CreatePre(t, g)
     \/ StartSeq
-    \/ \E k \in 0..(IF MaxEv - N < MaxOut THEN MaxEv - N ELSE MaxOut) : \E outs \in Outs(k) : SeqDeliver(outs)
+    \/ \E k \in 0..(IF MaxEv - N < MaxOut THEN MaxEv - N ELSE MaxOut) : \E outs \in Outs(k) :
+          \E c \in {0} \cup (IF Cancels /\ phase = "seq" /\ sheap # {} THEN Cancellable(SMin) ELSE {}) : SeqDeliver(outs, c)
     \/ StartPar
     \/ \E p \in Parts : \E i \in heap[p] : ExecStep(p, i)
     \/ \E p \in Parts : ExecDone(p)
